@@ -2147,13 +2147,14 @@ func layerHEscape(m *Model, f *ssa.Function) string {
 		}
 		seen[it.b] = true
 		if _, isRet := it.b.Instrs[len(it.b.Instrs)-1].(*ssa.Return); isRet {
-			trivial := false
+			trivial, sawIf := false, false
 			var steps []string
 			for x := it; x != nil && x.from != nil; x = x.from {
 				if iff, ok := x.from.b.Instrs[len(x.from.b.Instrs)-1].(*ssa.If); ok {
-					if isCountOrNilTest(iff.Cond, 0) {
-						trivial = true
+					if !sawIf && isCountOrNilTest(iff.Cond, 0) {
+						trivial = true // the branch that decides for this return is an element-count / nil test
 					}
+					sawIf = true
 					br := "true"
 					if len(x.from.b.Succs) == 2 && x.from.b.Succs[1] == x.b {
 						br = "false"
